@@ -160,6 +160,12 @@ Proof.
   - exists x, (a ++ sep ++ c'). auto.
 Qed.
 
+Lemma repository_grammar_examples :
+  RepoName (b "a__b/c--d.e") /\ ~ RepoName (b "a___b") /\ ~ RepoName (b "a-_b") /\ ~ RepoName (b "a//b") /\ ~ RepoName (b "Org/app").
+Proof.
+  repeat split; try (rewrite <- repository_grammar; vm_compute; (reflexivity || discriminate)).
+Qed.
+
 (* ---------- digest rule (go-digest v1.0.0), stated without the parser's helper functions ----------
    <algorithm> ':' <encoded>, the algorithm one of the table AND linked into the binary, the
    encoded part lower-case hex of exactly the algorithm's length *)
